@@ -44,7 +44,7 @@ Definition pins_C17 : bool :=
   (* enable/disable are compiler barriers: no nomem *)
   has_asm_opt "instructions/interrupts.rs::enable" ["sti"] "nomem" false &&
   has_asm_opt "instructions/interrupts.rs::disable" ["cli"] "nomem" false &&
-  has_asm "registers/rflags.rs::read_raw" ["pushfq; pop {}"] ["out(reg) r"].
+  has_asm "registers/rflags.rs::read_raw" ["pushfq; pop {}"] ["out(reg) _"].
 
 Definition pins_C18 : bool :=
   has_asm_opts "instructions/port.rs::read_from_port" ["in al, dx"] ["nomem"; "nostack"; "preserves_flags"] &&
@@ -53,12 +53,12 @@ Definition pins_C18 : bool :=
   has_asm_opts "instructions/port.rs::write_to_port" ["out dx, al"] ["nomem"; "nostack"; "preserves_flags"] &&
   has_asm_opts "instructions/port.rs::write_to_port" ["out dx, ax"] ["nomem"; "nostack"; "preserves_flags"] &&
   has_asm_opts "instructions/port.rs::write_to_port" ["out dx, eax"] ["nomem"; "nostack"; "preserves_flags"] &&
-  has_asm "instructions/port.rs::read_from_port" ["in al, dx"] ["out(""al"") value"; "in(""dx"") port"] &&
-  has_asm "instructions/port.rs::read_from_port" ["in ax, dx"] ["out(""ax"") value"; "in(""dx"") port"] &&
-  has_asm "instructions/port.rs::read_from_port" ["in eax, dx"] ["out(""eax"") value"; "in(""dx"") port"] &&
-  has_asm "instructions/port.rs::write_to_port" ["out dx, al"] ["in(""dx"") port"; "in(""al"") value"] &&
-  has_asm "instructions/port.rs::write_to_port" ["out dx, ax"] ["in(""dx"") port"; "in(""ax"") value"] &&
-  has_asm "instructions/port.rs::write_to_port" ["out dx, eax"] ["in(""dx"") port"; "in(""eax"") value"] &&
+  has_asm "instructions/port.rs::read_from_port" ["in al, dx"] ["out(""al"") _"; "in(""dx"") _"] &&
+  has_asm "instructions/port.rs::read_from_port" ["in ax, dx"] ["out(""ax"") _"; "in(""dx"") _"] &&
+  has_asm "instructions/port.rs::read_from_port" ["in eax, dx"] ["out(""eax"") _"; "in(""dx"") _"] &&
+  has_asm "instructions/port.rs::write_to_port" ["out dx, al"] ["in(""dx"") _"; "in(""al"") _"] &&
+  has_asm "instructions/port.rs::write_to_port" ["out dx, ax"] ["in(""dx"") _"; "in(""ax"") _"] &&
+  has_asm "instructions/port.rs::write_to_port" ["out dx, eax"] ["in(""dx"") _"; "in(""eax"") _"] &&
   (* without touching memory *)
   has_asm_opt "instructions/port.rs::read_from_port" ["in al, dx"] "nomem" true &&
   has_asm_opt "instructions/port.rs::read_from_port" ["in ax, dx"] "nomem" true &&
@@ -69,63 +69,63 @@ Definition pins_C18 : bool :=
 
 Definition pins_C11 : bool :=
   has_asm "instructions/tlb.rs::flush" ["invlpg [{}]"] ["in(reg) addr.as_u64()"] &&
-  has_asm "instructions/tlb.rs::flush_pcid" ["invpcid {0}, [{1}]"] ["in(reg) kind"; "in(reg) &desc"] &&
+  has_asm "instructions/tlb.rs::flush_pcid" ["invpcid {0}, [{1}]"] ["in(reg) _"; "in(reg) &desc"] &&
   has_asm "instructions/tlb.rs::tlbsync" ["tlbsync"] [] &&
   has_asm "instructions/tlb.rs::flush_broadcast" ["invlpgb"]
-          ["in(""rax"") rax"; "in(""ecx"") ecx"; "in(""edx"") edx"] &&
-  has_asm "registers/control.rs::read_raw" ["mov {}, cr3"] ["out(reg) value"] &&
-  has_asm "registers/control.rs::write_raw_impl" ["mov cr3, {}"] ["in(reg) value"].
+          ["in(""rax"") _"; "in(""ecx"") _"; "in(""edx"") _"] &&
+  has_asm "registers/control.rs::read_raw" ["mov {}, cr3"] ["out(reg) _"] &&
+  has_asm "registers/control.rs::write_raw_impl" ["mov cr3, {}"] ["in(reg) _"].
 
 Definition pins_C16 : bool :=
-  has_asm "registers/control.rs::read_raw" ["mov {}, cr0"] ["out(reg) value"] &&
-  has_asm "registers/control.rs::write_raw" ["mov cr0, {}"] ["in(reg) value"] &&
-  has_asm "registers/control.rs::read_raw" ["mov {}, cr2"] ["out(reg) value"] &&
-  has_asm "registers/control.rs::read_raw" ["mov {}, cr3"] ["out(reg) value"] &&
-  has_asm "registers/control.rs::write_raw_impl" ["mov cr3, {}"] ["in(reg) value"] &&
-  has_asm "registers/control.rs::read_raw" ["mov {}, cr4"] ["out(reg) value"] &&
-  has_asm "registers/control.rs::write_raw" ["mov cr4, {}"] ["in(reg) value"] &&
-  has_asm "registers/debug.rs::read_raw" ["mov {}, dr6"] ["out(reg) value"] &&
-  has_asm "registers/debug.rs::read_raw" ["mov {}, dr7"] ["out(reg) value"] &&
-  has_asm "registers/debug.rs::write_raw" ["mov dr7, {}"] ["in(reg) value"] &&
-  has_asm "registers/debug.rs::read[debug_address_register!(Dr0, ""dr0"")]" ["mov {}, dr0"] ["out(reg) addr"] &&
-  has_asm "registers/debug.rs::write[debug_address_register!(Dr0, ""dr0"")]" ["mov dr0, {}"] ["in(reg) addr"] &&
-  has_asm "registers/debug.rs::read[debug_address_register!(Dr1, ""dr1"")]" ["mov {}, dr1"] ["out(reg) addr"] &&
-  has_asm "registers/debug.rs::write[debug_address_register!(Dr1, ""dr1"")]" ["mov dr1, {}"] ["in(reg) addr"] &&
-  has_asm "registers/debug.rs::read[debug_address_register!(Dr2, ""dr2"")]" ["mov {}, dr2"] ["out(reg) addr"] &&
-  has_asm "registers/debug.rs::write[debug_address_register!(Dr2, ""dr2"")]" ["mov dr2, {}"] ["in(reg) addr"] &&
-  has_asm "registers/debug.rs::read[debug_address_register!(Dr3, ""dr3"")]" ["mov {}, dr3"] ["out(reg) addr"] &&
-  has_asm "registers/debug.rs::write[debug_address_register!(Dr3, ""dr3"")]" ["mov dr3, {}"] ["in(reg) addr"] &&
+  has_asm "registers/control.rs::read_raw" ["mov {}, cr0"] ["out(reg) _"] &&
+  has_asm "registers/control.rs::write_raw" ["mov cr0, {}"] ["in(reg) _"] &&
+  has_asm "registers/control.rs::read_raw" ["mov {}, cr2"] ["out(reg) _"] &&
+  has_asm "registers/control.rs::read_raw" ["mov {}, cr3"] ["out(reg) _"] &&
+  has_asm "registers/control.rs::write_raw_impl" ["mov cr3, {}"] ["in(reg) _"] &&
+  has_asm "registers/control.rs::read_raw" ["mov {}, cr4"] ["out(reg) _"] &&
+  has_asm "registers/control.rs::write_raw" ["mov cr4, {}"] ["in(reg) _"] &&
+  has_asm "registers/debug.rs::read_raw" ["mov {}, dr6"] ["out(reg) _"] &&
+  has_asm "registers/debug.rs::read_raw" ["mov {}, dr7"] ["out(reg) _"] &&
+  has_asm "registers/debug.rs::write_raw" ["mov dr7, {}"] ["in(reg) _"] &&
+  has_asm "registers/debug.rs::read[debug_address_register!(Dr0, ""dr0"")]" ["mov {}, dr0"] ["out(reg) _"] &&
+  has_asm "registers/debug.rs::write[debug_address_register!(Dr0, ""dr0"")]" ["mov dr0, {}"] ["in(reg) _"] &&
+  has_asm "registers/debug.rs::read[debug_address_register!(Dr1, ""dr1"")]" ["mov {}, dr1"] ["out(reg) _"] &&
+  has_asm "registers/debug.rs::write[debug_address_register!(Dr1, ""dr1"")]" ["mov dr1, {}"] ["in(reg) _"] &&
+  has_asm "registers/debug.rs::read[debug_address_register!(Dr2, ""dr2"")]" ["mov {}, dr2"] ["out(reg) _"] &&
+  has_asm "registers/debug.rs::write[debug_address_register!(Dr2, ""dr2"")]" ["mov dr2, {}"] ["in(reg) _"] &&
+  has_asm "registers/debug.rs::read[debug_address_register!(Dr3, ""dr3"")]" ["mov {}, dr3"] ["out(reg) _"] &&
+  has_asm "registers/debug.rs::write[debug_address_register!(Dr3, ""dr3"")]" ["mov dr3, {}"] ["in(reg) _"] &&
   (* index in ECX, value in EDX:EAX *)
   has_asm "registers/model_specific.rs::read" ["rdmsr"]
-          ["in(""ecx"") self.0"; "out(""eax"") low"; "out(""edx"") high"] &&
+          ["in(""ecx"") self.0"; "out(""eax"") _"; "out(""edx"") _"] &&
   has_asm "registers/model_specific.rs::write" ["wrmsr"]
-          ["in(""ecx"") self.0"; "in(""eax"") low"; "in(""edx"") high"] &&
+          ["in(""ecx"") self.0"; "in(""eax"") _"; "in(""edx"") _"] &&
   has_asm "registers/xcontrol.rs::read_raw" ["xgetbv"]
-          ["in(""ecx"") 0"; "out(""rax"") low"; "out(""rdx"") high"] &&
+          ["in(""ecx"") 0"; "out(""rax"") _"; "out(""rdx"") _"] &&
   has_asm "registers/xcontrol.rs::write_raw" ["xsetbv"]
-          ["in(""ecx"") 0"; "in(""rax"") low"; "in(""rdx"") high"] &&
+          ["in(""ecx"") 0"; "in(""rax"") _"; "in(""rdx"") _"] &&
   has_asm "instructions/segmentation.rs::set_reg"
           ["push {sel}"; "lea {tmp}, [55f + rip]"; "push {tmp}"; "retfq"; "55:"]
           ["sel = in(reg) u64::from(sel.0)"; "tmp = lateout(reg) _"] &&
-  has_asm "instructions/segmentation.rs::get_reg[get_reg_impl!(""cs"")]" ["mov {0:x}, cs"] ["out(reg) segment"] &&
+  has_asm "instructions/segmentation.rs::get_reg[get_reg_impl!(""cs"")]" ["mov {0:x}, cs"] ["out(reg) _"] &&
   has_asm "instructions/segmentation.rs::set_reg[segment_impl!(SS, ""ss"")]" ["mov ss, {0:x}"] ["in(reg) sel.0"] &&
-  has_asm "instructions/segmentation.rs::get_reg[segment_impl!(SS, ""ss"")][get_reg_impl!(""ss"")]" ["mov {0:x}, ss"] ["out(reg) segment"] &&
+  has_asm "instructions/segmentation.rs::get_reg[segment_impl!(SS, ""ss"")][get_reg_impl!(""ss"")]" ["mov {0:x}, ss"] ["out(reg) _"] &&
   has_asm "instructions/segmentation.rs::set_reg[segment_impl!(DS, ""ds"")]" ["mov ds, {0:x}"] ["in(reg) sel.0"] &&
-  has_asm "instructions/segmentation.rs::get_reg[segment_impl!(DS, ""ds"")][get_reg_impl!(""ds"")]" ["mov {0:x}, ds"] ["out(reg) segment"] &&
+  has_asm "instructions/segmentation.rs::get_reg[segment_impl!(DS, ""ds"")][get_reg_impl!(""ds"")]" ["mov {0:x}, ds"] ["out(reg) _"] &&
   has_asm "instructions/segmentation.rs::set_reg[segment_impl!(ES, ""es"")]" ["mov es, {0:x}"] ["in(reg) sel.0"] &&
-  has_asm "instructions/segmentation.rs::get_reg[segment_impl!(ES, ""es"")][get_reg_impl!(""es"")]" ["mov {0:x}, es"] ["out(reg) segment"] &&
+  has_asm "instructions/segmentation.rs::get_reg[segment_impl!(ES, ""es"")][get_reg_impl!(""es"")]" ["mov {0:x}, es"] ["out(reg) _"] &&
   has_asm "instructions/segmentation.rs::set_reg[segment_impl!(FS, ""fs"")]" ["mov fs, {0:x}"] ["in(reg) sel.0"] &&
-  has_asm "instructions/segmentation.rs::get_reg[segment_impl!(FS, ""fs"")][get_reg_impl!(""fs"")]" ["mov {0:x}, fs"] ["out(reg) segment"] &&
+  has_asm "instructions/segmentation.rs::get_reg[segment_impl!(FS, ""fs"")][get_reg_impl!(""fs"")]" ["mov {0:x}, fs"] ["out(reg) _"] &&
   has_asm "instructions/segmentation.rs::set_reg[segment_impl!(GS, ""gs"")]" ["mov gs, {0:x}"] ["in(reg) sel.0"] &&
-  has_asm "instructions/segmentation.rs::get_reg[segment_impl!(GS, ""gs"")][get_reg_impl!(""gs"")]" ["mov {0:x}, gs"] ["out(reg) segment"] &&
-  has_asm "instructions/segmentation.rs::read_base[segment64_impl!(FS, ""fs"", FsBase)]" ["rdfsbase {}"] ["out(reg) val"] &&
+  has_asm "instructions/segmentation.rs::get_reg[segment_impl!(GS, ""gs"")][get_reg_impl!(""gs"")]" ["mov {0:x}, gs"] ["out(reg) _"] &&
+  has_asm "instructions/segmentation.rs::read_base[segment64_impl!(FS, ""fs"", FsBase)]" ["rdfsbase {}"] ["out(reg) _"] &&
   has_asm "instructions/segmentation.rs::write_base[segment64_impl!(FS, ""fs"", FsBase)]" ["wrfsbase {}"] ["in(reg) base.as_u64()"] &&
-  has_asm "instructions/segmentation.rs::read_base[segment64_impl!(GS, ""gs"", GsBase)]" ["rdgsbase {}"] ["out(reg) val"] &&
+  has_asm "instructions/segmentation.rs::read_base[segment64_impl!(GS, ""gs"", GsBase)]" ["rdgsbase {}"] ["out(reg) _"] &&
   has_asm "instructions/segmentation.rs::write_base[segment64_impl!(GS, ""gs"", GsBase)]" ["wrgsbase {}"] ["in(reg) base.as_u64()"] &&
   has_asm "instructions/segmentation.rs::swap" ["swapgs"] [] &&
   has_asm "instructions/tables.rs::load_tss" ["ltr {0:x}"] ["in(reg) sel.0"] &&
-  has_asm "instructions/tables.rs::lgdt" ["lgdt [{}]"] ["in(reg) gdt"] &&
-  has_asm "instructions/tables.rs::lidt" ["lidt [{}]"] ["in(reg) idt"].
+  has_asm "instructions/tables.rs::lgdt" ["lgdt [{}]"] ["in(reg) _"] &&
+  has_asm "instructions/tables.rs::lidt" ["lidt [{}]"] ["in(reg) _"].
 
 Definition pins_C13 : bool :=
   existsb (fun e => match e with (l, t, _, _) =>
@@ -175,71 +175,71 @@ Definition expected_C17 : list entry := [
   ("instructions/interrupts.rs::enable", ["sti"], [], ["nostack"; "preserves_flags"]);
   ("instructions/interrupts.rs::disable", ["cli"], [], ["nostack"; "preserves_flags"]);
   ("instructions/interrupts.rs::enable_and_hlt", ["sti; hlt"], [], ["nomem"; "nostack"]);
-  ("registers/rflags.rs::read_raw", ["pushfq; pop {}"], ["out(reg) r"], ["nomem"; "preserves_flags"])
+  ("registers/rflags.rs::read_raw", ["pushfq; pop {}"], ["out(reg) _"], ["nomem"; "preserves_flags"])
 ].
 Definition expected_C18 : list entry := [
-  ("instructions/port.rs::read_from_port", ["in al, dx"], ["out(""al"") value"; "in(""dx"") port"], ["nomem"; "nostack"; "preserves_flags"]);
-  ("instructions/port.rs::read_from_port", ["in ax, dx"], ["out(""ax"") value"; "in(""dx"") port"], ["nomem"; "nostack"; "preserves_flags"]);
-  ("instructions/port.rs::read_from_port", ["in eax, dx"], ["out(""eax"") value"; "in(""dx"") port"], ["nomem"; "nostack"; "preserves_flags"]);
-  ("instructions/port.rs::write_to_port", ["out dx, al"], ["in(""dx"") port"; "in(""al"") value"], ["nomem"; "nostack"; "preserves_flags"]);
-  ("instructions/port.rs::write_to_port", ["out dx, ax"], ["in(""dx"") port"; "in(""ax"") value"], ["nomem"; "nostack"; "preserves_flags"]);
-  ("instructions/port.rs::write_to_port", ["out dx, eax"], ["in(""dx"") port"; "in(""eax"") value"], ["nomem"; "nostack"; "preserves_flags"])
+  ("instructions/port.rs::read_from_port", ["in al, dx"], ["out(""al"") _"; "in(""dx"") _"], ["nomem"; "nostack"; "preserves_flags"]);
+  ("instructions/port.rs::read_from_port", ["in ax, dx"], ["out(""ax"") _"; "in(""dx"") _"], ["nomem"; "nostack"; "preserves_flags"]);
+  ("instructions/port.rs::read_from_port", ["in eax, dx"], ["out(""eax"") _"; "in(""dx"") _"], ["nomem"; "nostack"; "preserves_flags"]);
+  ("instructions/port.rs::write_to_port", ["out dx, al"], ["in(""dx"") _"; "in(""al"") _"], ["nomem"; "nostack"; "preserves_flags"]);
+  ("instructions/port.rs::write_to_port", ["out dx, ax"], ["in(""dx"") _"; "in(""ax"") _"], ["nomem"; "nostack"; "preserves_flags"]);
+  ("instructions/port.rs::write_to_port", ["out dx, eax"], ["in(""dx"") _"; "in(""eax"") _"], ["nomem"; "nostack"; "preserves_flags"])
 ].
 Definition expected_C11 : list entry := [
   ("instructions/tlb.rs::flush", ["invlpg [{}]"], ["in(reg) addr.as_u64()"], ["nostack"; "preserves_flags"]);
-  ("instructions/tlb.rs::flush_pcid", ["invpcid {0}, [{1}]"], ["in(reg) kind"; "in(reg) &desc"], ["nostack"; "preserves_flags"]);
+  ("instructions/tlb.rs::flush_pcid", ["invpcid {0}, [{1}]"], ["in(reg) _"; "in(reg) &desc"], ["nostack"; "preserves_flags"]);
   ("instructions/tlb.rs::tlbsync", ["tlbsync"], [], ["nomem"; "preserves_flags"]);
-  ("instructions/tlb.rs::flush_broadcast", ["invlpgb"], ["in(""rax"") rax"; "in(""ecx"") ecx"; "in(""edx"") edx"], ["nostack"; "preserves_flags"]);
-  ("registers/control.rs::read_raw", ["mov {}, cr3"], ["out(reg) value"], ["nomem"; "nostack"; "preserves_flags"]);
-  ("registers/control.rs::write_raw_impl", ["mov cr3, {}"], ["in(reg) value"], ["nostack"; "preserves_flags"])
+  ("instructions/tlb.rs::flush_broadcast", ["invlpgb"], ["in(""rax"") _"; "in(""ecx"") _"; "in(""edx"") _"], ["nostack"; "preserves_flags"]);
+  ("registers/control.rs::read_raw", ["mov {}, cr3"], ["out(reg) _"], ["nomem"; "nostack"; "preserves_flags"]);
+  ("registers/control.rs::write_raw_impl", ["mov cr3, {}"], ["in(reg) _"], ["nostack"; "preserves_flags"])
 ].
 Definition expected_C16 : list entry := [
   ("instructions/segmentation.rs::set_reg", ["push {sel}"; "lea {tmp}, [55f + rip]"; "push {tmp}"; "retfq"; "55:"], ["sel = in(reg) u64::from(sel.0)"; "tmp = lateout(reg) _"], ["preserves_flags"]);
   ("instructions/segmentation.rs::swap", ["swapgs"], [], ["nostack"; "preserves_flags"]);
-  ("instructions/segmentation.rs::get_reg[get_reg_impl!(""cs"")]", ["mov {0:x}, cs"], ["out(reg) segment"], ["nomem"; "nostack"; "preserves_flags"]);
+  ("instructions/segmentation.rs::get_reg[get_reg_impl!(""cs"")]", ["mov {0:x}, cs"], ["out(reg) _"], ["nomem"; "nostack"; "preserves_flags"]);
   ("instructions/segmentation.rs::set_reg[segment_impl!(SS, ""ss"")]", ["mov ss, {0:x}"], ["in(reg) sel.0"], ["nostack"; "preserves_flags"]);
-  ("instructions/segmentation.rs::get_reg[segment_impl!(SS, ""ss"")][get_reg_impl!(""ss"")]", ["mov {0:x}, ss"], ["out(reg) segment"], ["nomem"; "nostack"; "preserves_flags"]);
+  ("instructions/segmentation.rs::get_reg[segment_impl!(SS, ""ss"")][get_reg_impl!(""ss"")]", ["mov {0:x}, ss"], ["out(reg) _"], ["nomem"; "nostack"; "preserves_flags"]);
   ("instructions/segmentation.rs::set_reg[segment_impl!(DS, ""ds"")]", ["mov ds, {0:x}"], ["in(reg) sel.0"], ["nostack"; "preserves_flags"]);
-  ("instructions/segmentation.rs::get_reg[segment_impl!(DS, ""ds"")][get_reg_impl!(""ds"")]", ["mov {0:x}, ds"], ["out(reg) segment"], ["nomem"; "nostack"; "preserves_flags"]);
+  ("instructions/segmentation.rs::get_reg[segment_impl!(DS, ""ds"")][get_reg_impl!(""ds"")]", ["mov {0:x}, ds"], ["out(reg) _"], ["nomem"; "nostack"; "preserves_flags"]);
   ("instructions/segmentation.rs::set_reg[segment_impl!(ES, ""es"")]", ["mov es, {0:x}"], ["in(reg) sel.0"], ["nostack"; "preserves_flags"]);
-  ("instructions/segmentation.rs::get_reg[segment_impl!(ES, ""es"")][get_reg_impl!(""es"")]", ["mov {0:x}, es"], ["out(reg) segment"], ["nomem"; "nostack"; "preserves_flags"]);
+  ("instructions/segmentation.rs::get_reg[segment_impl!(ES, ""es"")][get_reg_impl!(""es"")]", ["mov {0:x}, es"], ["out(reg) _"], ["nomem"; "nostack"; "preserves_flags"]);
   ("instructions/segmentation.rs::set_reg[segment_impl!(FS, ""fs"")]", ["mov fs, {0:x}"], ["in(reg) sel.0"], ["nostack"; "preserves_flags"]);
-  ("instructions/segmentation.rs::get_reg[segment_impl!(FS, ""fs"")][get_reg_impl!(""fs"")]", ["mov {0:x}, fs"], ["out(reg) segment"], ["nomem"; "nostack"; "preserves_flags"]);
+  ("instructions/segmentation.rs::get_reg[segment_impl!(FS, ""fs"")][get_reg_impl!(""fs"")]", ["mov {0:x}, fs"], ["out(reg) _"], ["nomem"; "nostack"; "preserves_flags"]);
   ("instructions/segmentation.rs::set_reg[segment_impl!(GS, ""gs"")]", ["mov gs, {0:x}"], ["in(reg) sel.0"], ["nostack"; "preserves_flags"]);
-  ("instructions/segmentation.rs::get_reg[segment_impl!(GS, ""gs"")][get_reg_impl!(""gs"")]", ["mov {0:x}, gs"], ["out(reg) segment"], ["nomem"; "nostack"; "preserves_flags"]);
-  ("instructions/segmentation.rs::read_base[segment64_impl!(FS, ""fs"", FsBase)]", ["rdfsbase {}"], ["out(reg) val"], ["nomem"; "nostack"; "preserves_flags"]);
+  ("instructions/segmentation.rs::get_reg[segment_impl!(GS, ""gs"")][get_reg_impl!(""gs"")]", ["mov {0:x}, gs"], ["out(reg) _"], ["nomem"; "nostack"; "preserves_flags"]);
+  ("instructions/segmentation.rs::read_base[segment64_impl!(FS, ""fs"", FsBase)]", ["rdfsbase {}"], ["out(reg) _"], ["nomem"; "nostack"; "preserves_flags"]);
   ("instructions/segmentation.rs::write_base[segment64_impl!(FS, ""fs"", FsBase)]", ["wrfsbase {}"], ["in(reg) base.as_u64()"], ["nostack"; "preserves_flags"]);
-  ("instructions/segmentation.rs::read_base[segment64_impl!(GS, ""gs"", GsBase)]", ["rdgsbase {}"], ["out(reg) val"], ["nomem"; "nostack"; "preserves_flags"]);
+  ("instructions/segmentation.rs::read_base[segment64_impl!(GS, ""gs"", GsBase)]", ["rdgsbase {}"], ["out(reg) _"], ["nomem"; "nostack"; "preserves_flags"]);
   ("instructions/segmentation.rs::write_base[segment64_impl!(GS, ""gs"", GsBase)]", ["wrgsbase {}"], ["in(reg) base.as_u64()"], ["nostack"; "preserves_flags"]);
-  ("instructions/tables.rs::lgdt", ["lgdt [{}]"], ["in(reg) gdt"], ["nostack"; "preserves_flags"; "readonly"]);
-  ("instructions/tables.rs::lidt", ["lidt [{}]"], ["in(reg) idt"], ["nostack"; "preserves_flags"; "readonly"]);
+  ("instructions/tables.rs::lgdt", ["lgdt [{}]"], ["in(reg) _"], ["nostack"; "preserves_flags"; "readonly"]);
+  ("instructions/tables.rs::lidt", ["lidt [{}]"], ["in(reg) _"], ["nostack"; "preserves_flags"; "readonly"]);
   ("instructions/tables.rs::load_tss", ["ltr {0:x}"], ["in(reg) sel.0"], ["nostack"; "preserves_flags"]);
-  ("registers/control.rs::read_raw", ["mov {}, cr0"], ["out(reg) value"], ["nomem"; "nostack"; "preserves_flags"]);
-  ("registers/control.rs::write_raw", ["mov cr0, {}"], ["in(reg) value"], ["nostack"; "preserves_flags"]);
-  ("registers/control.rs::read_raw", ["mov {}, cr2"], ["out(reg) value"], ["nomem"; "nostack"; "preserves_flags"]);
-  ("registers/control.rs::read_raw", ["mov {}, cr3"], ["out(reg) value"], ["nomem"; "nostack"; "preserves_flags"]);
-  ("registers/control.rs::write_raw_impl", ["mov cr3, {}"], ["in(reg) value"], ["nostack"; "preserves_flags"]);
-  ("registers/control.rs::read_raw", ["mov {}, cr4"], ["out(reg) value"], ["nomem"; "nostack"; "preserves_flags"]);
-  ("registers/control.rs::write_raw", ["mov cr4, {}"], ["in(reg) value"], ["nostack"; "preserves_flags"]);
-  ("registers/debug.rs::read_raw", ["mov {}, dr6"], ["out(reg) value"], ["nomem"; "nostack"; "preserves_flags"]);
-  ("registers/debug.rs::read_raw", ["mov {}, dr7"], ["out(reg) value"], ["nomem"; "nostack"; "preserves_flags"]);
-  ("registers/debug.rs::write_raw", ["mov dr7, {}"], ["in(reg) value"], ["nomem"; "nostack"; "preserves_flags"]);
-  ("registers/debug.rs::read[debug_address_register!(Dr0, ""dr0"")]", ["mov {}, dr0"], ["out(reg) addr"], ["nomem"; "nostack"; "preserves_flags"]);
-  ("registers/debug.rs::write[debug_address_register!(Dr0, ""dr0"")]", ["mov dr0, {}"], ["in(reg) addr"], ["nomem"; "nostack"; "preserves_flags"]);
-  ("registers/debug.rs::read[debug_address_register!(Dr1, ""dr1"")]", ["mov {}, dr1"], ["out(reg) addr"], ["nomem"; "nostack"; "preserves_flags"]);
-  ("registers/debug.rs::write[debug_address_register!(Dr1, ""dr1"")]", ["mov dr1, {}"], ["in(reg) addr"], ["nomem"; "nostack"; "preserves_flags"]);
-  ("registers/debug.rs::read[debug_address_register!(Dr2, ""dr2"")]", ["mov {}, dr2"], ["out(reg) addr"], ["nomem"; "nostack"; "preserves_flags"]);
-  ("registers/debug.rs::write[debug_address_register!(Dr2, ""dr2"")]", ["mov dr2, {}"], ["in(reg) addr"], ["nomem"; "nostack"; "preserves_flags"]);
-  ("registers/debug.rs::read[debug_address_register!(Dr3, ""dr3"")]", ["mov {}, dr3"], ["out(reg) addr"], ["nomem"; "nostack"; "preserves_flags"]);
-  ("registers/debug.rs::write[debug_address_register!(Dr3, ""dr3"")]", ["mov dr3, {}"], ["in(reg) addr"], ["nomem"; "nostack"; "preserves_flags"]);
-  ("registers/model_specific.rs::read", ["rdmsr"], ["in(""ecx"") self.0"; "out(""eax"") low"; "out(""edx"") high"], ["nomem"; "nostack"; "preserves_flags"]);
-  ("registers/model_specific.rs::write", ["wrmsr"], ["in(""ecx"") self.0"; "in(""eax"") low"; "in(""edx"") high"], ["nostack"; "preserves_flags"]);
+  ("registers/control.rs::read_raw", ["mov {}, cr0"], ["out(reg) _"], ["nomem"; "nostack"; "preserves_flags"]);
+  ("registers/control.rs::write_raw", ["mov cr0, {}"], ["in(reg) _"], ["nostack"; "preserves_flags"]);
+  ("registers/control.rs::read_raw", ["mov {}, cr2"], ["out(reg) _"], ["nomem"; "nostack"; "preserves_flags"]);
+  ("registers/control.rs::read_raw", ["mov {}, cr3"], ["out(reg) _"], ["nomem"; "nostack"; "preserves_flags"]);
+  ("registers/control.rs::write_raw_impl", ["mov cr3, {}"], ["in(reg) _"], ["nostack"; "preserves_flags"]);
+  ("registers/control.rs::read_raw", ["mov {}, cr4"], ["out(reg) _"], ["nomem"; "nostack"; "preserves_flags"]);
+  ("registers/control.rs::write_raw", ["mov cr4, {}"], ["in(reg) _"], ["nostack"; "preserves_flags"]);
+  ("registers/debug.rs::read_raw", ["mov {}, dr6"], ["out(reg) _"], ["nomem"; "nostack"; "preserves_flags"]);
+  ("registers/debug.rs::read_raw", ["mov {}, dr7"], ["out(reg) _"], ["nomem"; "nostack"; "preserves_flags"]);
+  ("registers/debug.rs::write_raw", ["mov dr7, {}"], ["in(reg) _"], ["nomem"; "nostack"; "preserves_flags"]);
+  ("registers/debug.rs::read[debug_address_register!(Dr0, ""dr0"")]", ["mov {}, dr0"], ["out(reg) _"], ["nomem"; "nostack"; "preserves_flags"]);
+  ("registers/debug.rs::write[debug_address_register!(Dr0, ""dr0"")]", ["mov dr0, {}"], ["in(reg) _"], ["nomem"; "nostack"; "preserves_flags"]);
+  ("registers/debug.rs::read[debug_address_register!(Dr1, ""dr1"")]", ["mov {}, dr1"], ["out(reg) _"], ["nomem"; "nostack"; "preserves_flags"]);
+  ("registers/debug.rs::write[debug_address_register!(Dr1, ""dr1"")]", ["mov dr1, {}"], ["in(reg) _"], ["nomem"; "nostack"; "preserves_flags"]);
+  ("registers/debug.rs::read[debug_address_register!(Dr2, ""dr2"")]", ["mov {}, dr2"], ["out(reg) _"], ["nomem"; "nostack"; "preserves_flags"]);
+  ("registers/debug.rs::write[debug_address_register!(Dr2, ""dr2"")]", ["mov dr2, {}"], ["in(reg) _"], ["nomem"; "nostack"; "preserves_flags"]);
+  ("registers/debug.rs::read[debug_address_register!(Dr3, ""dr3"")]", ["mov {}, dr3"], ["out(reg) _"], ["nomem"; "nostack"; "preserves_flags"]);
+  ("registers/debug.rs::write[debug_address_register!(Dr3, ""dr3"")]", ["mov dr3, {}"], ["in(reg) _"], ["nomem"; "nostack"; "preserves_flags"]);
+  ("registers/model_specific.rs::read", ["rdmsr"], ["in(""ecx"") self.0"; "out(""eax"") _"; "out(""edx"") _"], ["nomem"; "nostack"; "preserves_flags"]);
+  ("registers/model_specific.rs::write", ["wrmsr"], ["in(""ecx"") self.0"; "in(""eax"") _"; "in(""edx"") _"], ["nostack"; "preserves_flags"]);
   ("registers/mxcsr.rs::read", ["stmxcsr [{}]"], ["in(reg) &mut mxcsr"], ["nostack"; "preserves_flags"]);
   ("registers/mxcsr.rs::write", ["ldmxcsr [{}]"], ["in(reg) &mxcsr"], ["nostack"; "readonly"]);
-  ("registers/rflags.rs::read_raw", ["pushfq; pop {}"], ["out(reg) r"], ["nomem"; "preserves_flags"]);
-  ("registers/rflags.rs::write_raw", ["push {}; popfq"], ["in(reg) val"], ["nomem"; "preserves_flags"]);
-  ("registers/xcontrol.rs::read_raw", ["xgetbv"], ["in(""ecx"") 0"; "out(""rax"") low"; "out(""rdx"") high"], ["nomem"; "nostack"; "preserves_flags"]);
-  ("registers/xcontrol.rs::write_raw", ["xsetbv"], ["in(""ecx"") 0"; "in(""rax"") low"; "in(""rdx"") high"], ["nomem"; "nostack"; "preserves_flags"])
+  ("registers/rflags.rs::read_raw", ["pushfq; pop {}"], ["out(reg) _"], ["nomem"; "preserves_flags"]);
+  ("registers/rflags.rs::write_raw", ["push {}; popfq"], ["in(reg) _"], ["nomem"; "preserves_flags"]);
+  ("registers/xcontrol.rs::read_raw", ["xgetbv"], ["in(""ecx"") 0"; "out(""rax"") _"; "out(""rdx"") _"], ["nomem"; "nostack"; "preserves_flags"]);
+  ("registers/xcontrol.rs::write_raw", ["xsetbv"], ["in(""ecx"") 0"; "in(""rax"") _"; "in(""rdx"") _"], ["nomem"; "nostack"; "preserves_flags"])
 ].
 Definition expected_C13 : list entry := [
   ("structures/idt.rs::iretq", ["push {stack_segment:r}"; "push {new_stack_pointer}"; "push {rflags}"; "push {code_segment:r}"; "push {new_instruction_pointer}"; "iretq"], ["rflags = in(reg) self.cpu_flags.bits()"; "new_instruction_pointer = in(reg) self.instruction_pointer.as_u64()"; "new_stack_pointer = in(reg) self.stack_pointer.as_u64()"; "code_segment = in(reg) self.code_segment.0"; "stack_segment = in(reg) self.stack_segment.0"], ["noreturn"])
@@ -254,9 +254,9 @@ Definition pins_C13_exact : bool := asm_rules (filter (in_domain expected_C13) a
    declaration of the result and its return): no other statement - e.g. a store to memory - may
    sit beside the IN / OUT instruction ("without touching memory") *)
 Definition expected_port_fn_shapes : list (string * list string * string) := [
-  ("instructions/port.rs::read_from_port", ["in al, dx"], "letvalue:u8;unsafe{ASM;}value");
-  ("instructions/port.rs::read_from_port", ["in ax, dx"], "letvalue:u16;unsafe{ASM;}value");
-  ("instructions/port.rs::read_from_port", ["in eax, dx"], "letvalue:u32;unsafe{ASM;}value");
+  ("instructions/port.rs::read_from_port", ["in al, dx"], "let_:u8;unsafe{ASM;}_");
+  ("instructions/port.rs::read_from_port", ["in ax, dx"], "let_:u16;unsafe{ASM;}_");
+  ("instructions/port.rs::read_from_port", ["in eax, dx"], "let_:u32;unsafe{ASM;}_");
   ("instructions/port.rs::write_to_port", ["out dx, al"], "unsafe{ASM;}");
   ("instructions/port.rs::write_to_port", ["out dx, ax"], "unsafe{ASM;}");
   ("instructions/port.rs::write_to_port", ["out dx, eax"], "unsafe{ASM;}")
